@@ -38,7 +38,7 @@ def check_names(ck, binpath, t):
     if rc != 0:
         ck.tie_broken("harness tables command failed", err[-2000:])
         return None
-    v = json.loads(out.splitlines()[0])
+    v = json.loads(jlines(out)[0])
     if t is not None:
         want = [t["names"][c] for c in t["codes"]]
         if v["names"] != want:
